@@ -196,6 +196,9 @@ pub fn exps(m: &mut M, r: &mut Rng, n: u64) {
         m.group("exp");
         exp_arg(m, r, 0);
         m.call("elem", "exp", *r.pick(&SP2), Some(1), &[A::R(0)]);
+        if i % 4 == 1 {
+            neighbour_replay(m, r, "elem", &["exp"], 0);
+        }
         match i % 3 {
             0 => {
                 // exp_m1: both sides of -ln 2, ln 1.5, +-2^-8, -0.70, 0.41, tiny
@@ -220,6 +223,9 @@ pub fn exps(m: &mut M, r: &mut Rng, n: u64) {
                     }
                 }
                 m.call("elem", "exp_m1", *r.pick(&SP2), Some(3), &[A::R(2)]);
+                if i % 4 == 0 {
+                    neighbour_replay(m, r, "elem", &["exp_m1"], 2);
+                }
             }
             1 => {
                 // exp2: integers, half-integers, range switches, random
@@ -246,6 +252,9 @@ pub fn exps(m: &mut M, r: &mut Rng, n: u64) {
                     }
                 }
                 m.call("elem", "exp2", *r.pick(&SP2), Some(3), &[A::R(2)]);
+                if i % 4 == 1 {
+                    neighbour_replay(m, r, "elem", &["exp2"], 2);
+                }
             }
             _ => {
                 powf_case(m, r);
@@ -390,6 +399,9 @@ pub fn logs(m: &mut M, r: &mut Rng, n: u64) {
         m.call("const", "const", "consts", Some(3), &[A::S("LN_10".into())]);
         m.call("arith", "div", "vv", Some(4), &[A::R(1), A::R(3)]);
         m.call("elem", "log10", *r.pick(&SP2), Some(5), &[A::R(0)]);
+        if i % 4 == 3 {
+            neighbour_replay(m, r, "elem", &["ln", "log2", "log10"], 0);
+        }
         if i % 3 == 0 {
             // log(x, b) == ln(x) / ln(b)
             // bases: the special ones for which a dedicated routine exists, their neighbours, and generic ones
@@ -440,6 +452,19 @@ pub fn logs(m: &mut M, r: &mut Rng, n: u64) {
 
 // ------------------------------------------------------------------------------------ C16
 fn trig_arg(m: &mut M, r: &mut Rng, d: usize) {
+    if r.below(6) == 0 {
+        // x = q * pi/2 +- (pi/4 -+ eps), eps one binade at a time (round-robin) from 2^-50 down to 2^-112: the
+        // reduced argument sits just inside / just outside the end of the kernels' interval (operand computed with
+        // the crate's own arithmetic, it only has to be near the target; the verdict is the specification's)
+        let q = match r.below(3) { 0 => r.range(-4, 4), 1 => r.range(-2000, 2000), _ => r.range(-600000, 600000) } as f64;
+        let eps = pow2(-50 - (r.tick() % 63) as i32) * (1.0 + (r.below(8) as f64) / 8.0);
+        let inner = if r.coin() { 1.0 } else { -1.0 };
+        let side = sgn(r);
+        let x = twofloat::consts::FRAC_PI_2 * q + side * (twofloat::consts::FRAC_PI_4 - inner * eps);
+        if x.is_valid() && m.load(d, x.hi(), x.lo()) {
+            return;
+        }
+    }
     match r.below(12) {
         0..=2 => {
             // both sides of multiples of pi/4 (the f64 product is within an ulp; add a few ulps of offset)
@@ -564,6 +589,9 @@ pub fn atrig(m: &mut M, r: &mut Rng, n: u64) {
         }
         m.call("elem", "asin", *r.pick(&SP2), Some(1), &[A::R(0)]);
         m.call("elem", "acos", *r.pick(&SP2), Some(2), &[A::R(0)]);
+        if i % 4 == 2 {
+            neighbour_replay(m, r, "elem", &["asin", "acos"], 0);
+        }
         // atan: every reduction interval, both sides of the breakpoints
         match r.below(6) {
             0 | 1 => {
@@ -607,8 +635,23 @@ pub fn atrig(m: &mut M, r: &mut Rng, n: u64) {
             };
             let hy = sgn(r) * log_uniform(r, ey, ey + 1);
             let hx = sgn(r) * log_uniform(r, ex, ex + 1);
-            load_near(m, r, 5, hy);
-            load_near(m, r, 6, hx);
+            if i % 3 == 1 {
+                // the high words are in an exactly representable ratio (the diagonals, 2:1, 3:2, ...) and only one
+                // operand has a low word: the quotient y/x then differs from the ratio of the high words by the
+                // low word alone
+                let c = *r.pick(&[1.0, -1.0, 2.0, 0.5, 3.0, 1.5, 0.75, 4.0]);
+                let (one_word, two_words) = if r.coin() { (5, 6) } else { (6, 5) };
+                m.load(one_word, c * hx, 0.0);
+                loop {
+                    let lo = lo_candidate(r, hx);
+                    if lo != 0.0 && m.load(two_words, hx, lo) {
+                        break;
+                    }
+                }
+            } else {
+                load_near(m, r, 5, hy);
+                load_near(m, r, 6, hx);
+            }
             m.call("elem", "atan2", *r.pick(&SP2), Some(7), &[A::R(5), A::R(6)]);
         }
     }
@@ -638,6 +681,9 @@ pub fn hyp(m: &mut M, r: &mut Rng, n: u64) {
             m.call("elem", "sinh", *r.pick(&SP2), Some(2), &[A::R(reg)]);
             m.call("elem", "cosh", *r.pick(&SP2), Some(2), &[A::R(reg)]);
             m.call("elem", "tanh", *r.pick(&SP2), Some(2), &[A::R(reg)]);
+        }
+        if i % 4 == 0 {
+            neighbour_replay(m, r, "elem", &["sinh", "cosh", "tanh"], 0);
         }
         // asinh: both signs, up to 2^60
         match r.below(5) {
@@ -740,7 +786,7 @@ pub fn angles(m: &mut M, r: &mut Rng, n: u64) {
     }
     for i in 0..n {
         m.group("angle");
-        match r.below(5) {
+        match r.below(6) {
             0 => {
                 let k = *r.pick(&[90.0, 180.0, 360.0, 45.0, 1.0, 57.29577951308232, 0.017453292519943295]);
                 let s1 = sgn(r);
@@ -748,6 +794,21 @@ pub fn angles(m: &mut M, r: &mut Rng, n: u64) {
             }
             1 => {
                 m.load(0, if r.coin() { 0.0 } else { -0.0 }, 0.0);
+            }
+            2 | 3 => {
+                // arguments whose RESULT is within a few units of its own low word of a "nice" value (a whole
+                // number of degrees / a whole multiple of pi/180 radians): k * pi/180 and k as double-doubles,
+                // with the low word moved by 0..60 ulps either way (the operand is computed with the crate's
+                // own arithmetic, which only has to be near the target; every verdict is the specification's)
+                let k = if r.coin() { *r.pick(&[1.0, 30.0, 45.0, 60.0, 90.0, 180.0, 270.0, 360.0]) } else { r.range(1, 1400) as f64 };
+                let x = if r.coin() { twofloat::consts::PI * k / 180.0 } else { twofloat::TwoFloat::from(k) * 180.0 / twofloat::consts::PI };
+                let x = if r.coin() { x } else { -x };
+                let j = match r.below(3) { 0 => 0, 1 => r.range(-3, 3), _ => r.range(-60, 60) };
+                let lo = x.lo();
+                let lo2 = if lo == 0.0 { lo } else { f64::from_bits((lo.to_bits() as i64 + j) as u64) };
+                if !m.load(0, x.hi(), lo2) {
+                    m.load(0, x.hi(), lo);
+                }
             }
             _ => load_valid(m, r, 0, -449, 449),
         }
